@@ -3,14 +3,19 @@
 //! Case input:
 //!   (fmt <width> x<text>)      format the definition parsed from <text> at that width
 //!   (fmt1 x<text>)             the width-independent renderings
-//!   (cli <width> <color t|f> x<text>)   `varlink --color=on|off format -c <width> FILE`
+//!   (cli <width|-> <color t|f> x<text>) `varlink --color=on|off format [-c <width>] FILE` (the file holds <text>)
+//!   (conc <iters> (<width> x<text>)+)   one thread per (width, text): each renders its own definition
+//!                                       <iters> times (plain, colored, to_string() in rotation), all
+//!                                       threads at once, colour forced on
 //!
 //! Observation (REAL code; colour forced on for the colored twins):
 //!   (fmt <dump of the parsed definition> x<get_multiline(0,w)> x<get_multiline_colored(0,w)>
 //!        <dump of IDL::try_from(get_multiline(0,w)) | (parse-error ..) | (idl-error ..)>
 //!        <second formatting of the re-parsed definition == first: t|f>)
 //!   (fmt1 x<get_oneline()> x<get_oneline_colored()> x<to_string()>)
-//!   (cli <exit code> x<stdout>)
+//!   (cli <exit code> x<stdout> x<the library's rendering of the same text, in-process | ->)
+//!   (conc (x<sequential plain> x<sequential colored> <#plain renderings != sequential>
+//!          <#colored != sequential> <#to_string != sequential> x<first deviating rendering | ->)+)
 //!   (unparsable)               the case text is not a definition
 use super::idl::{decorate, dump_idl, gen_idl, gen_valid_text, observe, render_idl, repo_idl_files};
 use crate::rng::Rng;
@@ -32,11 +37,35 @@ fn case_fmt1(text: &str, tags: &[&str]) -> Case {
     Case { input: sx::tagged("fmt1", vec![sx::xs(text)]), tags: tags.iter().map(|s| s.to_string()).collect() }
 }
 
-fn case_cli(w: usize, color: bool, text: &str) -> Case {
+fn case_cli(w: Option<usize>, color: bool, text: &str, tag: &str) -> Case {
     Case {
-        input: sx::tagged("cli", vec![sx::nat(w), sx::boolean(color), sx::xs(text)]),
-        tags: vec!["cli".into(), format!("cli:color={}", color)],
+        input: sx::tagged("cli", vec![w.map(sx::nat).unwrap_or_else(|| sx::atom("-")), sx::boolean(color), sx::xs(text)]),
+        tags: vec!["cli".into(), format!("cli:color={}", color), tag.to_string()],
     }
+}
+
+/// a definition larger than the last of `boundaries` (multiples of the 8 KiB read size) with the
+/// character `ch` in a documentation comment starting `k` bytes before each boundary (after it for k < 0)
+pub fn big_text(boundaries: &[usize], ch: char, k: isize) -> String {
+    let mut s = String::from("# a large interface file\ninterface org.example.big\n");
+    let mut n = 0usize;
+    for (idx, &b) in boundaries.iter().enumerate() {
+        let at = (b as isize - k) as usize;
+        while s.len() + 260 < at {
+            n += 1;
+            s.push_str(&format!("\n# filler {} \u{e4}\u{20ac}\ntype F{} (a: int, b: ?[]string, c: (x, y))\n", n, n));
+        }
+        s.push_str("\n# ");
+        while s.len() < at {
+            s.push('x');
+        }
+        assert_eq!(s.len(), at);
+        s.push(ch);
+        s.push_str(" <- here\n");
+        s.push_str(&format!("method M{}(a: int) -> (b: string)\n", idx));
+    }
+    s.push_str("\nerror Last (reason: string)\n");
+    s
 }
 
 fn width_tag(w: usize) -> &'static str {
@@ -144,14 +173,51 @@ impl Suite for FmtSuite {
                 cases.push(case_fmt(w, &t, &["interleaved", width_tag(w)]));
             }
         }
-        // (7) the command-line tool
+        // (7) the command-line tool: stdout must be the library's rendering of the file's text
         if std::path::Path::new(&cli_path()).exists() {
             for i in 0..(if ctx.thorough { 60 } else { 12 }) {
                 let t = gen_valid_text(&mut rng, 4, 2, i % 3).1.concat();
-                for w in [0usize, 40, 80] {
-                    cases.push(case_cli(w, i % 2 == 0, &t));
+                for w in [Some(0usize), Some(40), Some(80), None] {
+                    cases.push(case_cli(w, i % 2 == 0, &t, "cli:small"));
                 }
             }
+            //   large files (8-40 KiB) with a multi-byte character of a doc comment at / across every
+            //   multiple of 8192 bytes (a reader that decodes the file piecewise damages it there)
+            let sets: Vec<Vec<usize>> = if ctx.thorough {
+                vec![vec![8192], vec![8192, 16384], vec![8192, 16384, 24576], vec![8192, 16384, 24576, 32768, 40960], vec![4096, 8192, 12288]]
+            } else {
+                vec![vec![8192], vec![8192, 16384, 24576, 32768, 40960]]
+            };
+            for (si, set) in sets.iter().enumerate() {
+                for ch in ['\u{e4}', '\u{20ac}', '\u{1F600}'] {
+                    for k in [-1isize, 0, 1, 2, 3] {
+                        if k >= ch.len_utf8() as isize + 1 {
+                            continue;
+                        }
+                        let t = big_text(set, ch, k);
+                        let w = match (si as isize + k + ch.len_utf8() as isize).rem_euclid(3) {
+                            0 => None,
+                            1 => Some(80),
+                            _ => Some(30),
+                        };
+                        cases.push(case_cli(w, k == 2, &t, "cli:large"));
+                    }
+                }
+            }
+        }
+        // (8) concurrent formatting: the rendering is a function of (definition, width); with colour
+        //     forced on for the process, N threads rendering at once must each get the sequential value
+        for i in 0..(if ctx.thorough { 40 } else { 10 }) {
+            let nthreads = 2 + (i % 7);
+            let mut jobs = Vec::new();
+            for t in 0..nthreads {
+                let text = gen_valid_text(&mut rng, 4, 2, (i + t) % 3).1.concat();
+                let w = *rng.pick(&[0usize, 20, 40, 80, 200]);
+                jobs.push(sx::list(vec![sx::nat(w), sx::xs(&text)]));
+            }
+            let mut v = vec![sx::nat(if ctx.thorough { 600 } else { 300 })];
+            v.extend(jobs);
+            cases.push(Case { input: sx::tagged("conc", v), tags: vec!["concurrent".into(), format!("threads:{}", nthreads)] });
         }
         cases
     }
@@ -200,27 +266,99 @@ impl Suite for FmtSuite {
                 )
             }
             (Some("cli"), 4) => {
-                let (w, color, text) = match (l[1].as_atom().and_then(|a| a.parse::<usize>().ok()), l[2].as_opt_bool(), l[3].as_str()) {
-                    (Some(w), Some(Some(c)), Some(t)) => (w, c, t),
+                let (w, color, text) = match (l[1].as_atom(), l[2].as_opt_bool(), l[3].as_str()) {
+                    (Some(w), Some(Some(c)), Some(t)) => (w.parse::<usize>().ok(), c, t),
                     _ => return sx::atom("bad-case"),
                 };
                 let path = format!("{}/fmt-cli-case.varlink", ctx.out_dir);
                 std::fs::write(&path, text.as_bytes()).expect("write case file");
-                let out = std::process::Command::new(cli_path())
-                    .arg(if color { "--color=on" } else { "--color=off" })
-                    .arg("format")
-                    .arg("-c")
-                    .arg(format!("{}", w))
+                let mut cmd = std::process::Command::new(cli_path());
+                cmd.arg(if color { "--color=on" } else { "--color=off" }).arg("format");
+                if let Some(w) = w {
+                    cmd.arg("-c").arg(format!("{}", w));
+                }
+                let out = cmd
                     .arg(&path)
                     .env("CLICOLOR_FORCE", "1")
                     .env_remove("NO_COLOR")
                     .output()
                     .expect("run varlink");
                 let _ = std::fs::remove_file(&path);
+                let lib = match IDL::try_from(text.as_str()) {
+                    Ok(i) => sx::xs(&if color { i.get_multiline_colored(0, w.unwrap_or(80)) } else { i.get_multiline(0, w.unwrap_or(80)) }),
+                    Err(_) => sx::atom("-"),
+                };
                 sx::tagged(
                     "cli",
-                    vec![sx::int(out.status.code().unwrap_or(-1) as i64), sx::xs(&String::from_utf8_lossy(&out.stdout))],
+                    vec![sx::int(out.status.code().unwrap_or(-1) as i64), sx::xs(&String::from_utf8_lossy(&out.stdout)), lib],
                 )
+            }
+            (Some("conc"), n) if n >= 3 => {
+                let iters = match l[1].as_usize() {
+                    Some(i) => i,
+                    None => return sx::atom("bad-case"),
+                };
+                let mut jobs: Vec<(usize, String)> = Vec::new();
+                for j in &l[2..] {
+                    match j.as_list() {
+                        Some(p) if p.len() == 2 => match (p[0].as_usize(), p[1].as_str()) {
+                            (Some(w), Some(t)) => jobs.push((w, t)),
+                            _ => return sx::atom("bad-case"),
+                        },
+                        _ => return sx::atom("bad-case"),
+                    }
+                }
+                // sequential references first
+                let mut refs = Vec::new();
+                for (w, t) in &jobs {
+                    match IDL::try_from(t.as_str()) {
+                        Ok(i) => refs.push((i.get_multiline(0, *w), i.get_multiline_colored(0, *w), i.to_string())),
+                        Err(_) => return sx::list(vec![sx::atom("unparsable")]),
+                    }
+                }
+                let barrier = std::sync::Arc::new(std::sync::Barrier::new(jobs.len()));
+                let mut handles = Vec::new();
+                for ((w, t), (rp, rc, rd)) in jobs.into_iter().zip(refs.iter().cloned()) {
+                    let barrier = barrier.clone();
+                    handles.push(std::thread::spawn(move || {
+                        let idl = IDL::try_from(t.as_str()).expect("parsed before");
+                        let (mut bp, mut bc, mut bd) = (0usize, 0usize, 0usize);
+                        let mut first: Option<String> = None;
+                        barrier.wait();
+                        for it in 0..iters {
+                            match it % 3 {
+                                0 => {
+                                    let x = idl.get_multiline(0, w);
+                                    if x != rp {
+                                        bp += 1;
+                                        first.get_or_insert(x);
+                                    }
+                                }
+                                1 => {
+                                    let x = idl.get_multiline_colored(0, w);
+                                    if x != rc {
+                                        bc += 1;
+                                        first.get_or_insert(x);
+                                    }
+                                }
+                                _ => {
+                                    let x = idl.to_string();
+                                    if x != rd {
+                                        bd += 1;
+                                        first.get_or_insert(x);
+                                    }
+                                }
+                            }
+                        }
+                        (bp, bc, bd, first)
+                    }));
+                }
+                let mut out = Vec::new();
+                for (h, (rp, rc, _)) in handles.into_iter().zip(refs.iter()) {
+                    let (bp, bc, bd, first) = h.join().unwrap_or((usize::MAX, usize::MAX, usize::MAX, None));
+                    out.push(sx::list(vec![sx::xs(rp), sx::xs(rc), sx::nat(bp), sx::nat(bc), sx::nat(bd), sx::opt_str(first.as_deref())]));
+                }
+                sx::tagged("conc", out)
             }
             _ => sx::atom("bad-case"),
         }
